@@ -396,6 +396,7 @@ def main(modname: str):
     args = ap.parse_args()
     t_start = time.time()
     try:
+        env.scratch_root()  # created by the top-level process, inherited by workers
         env.setup()
         env.assert_repo()
         rc = _main(mod, prop, args, t_start)
@@ -410,6 +411,7 @@ def main(modname: str):
         rc = 2
     sys.stdout.flush()
     sys.stderr.flush()
+    env.cleanup()
     os._exit(rc)  # no lingering threads / atexit of third-party libs may change the code
 
 
